@@ -493,7 +493,12 @@ func (ms *MidState) reviseFileContractElement(fce types.FileContractElement, rev
 
 func (ms *MidState) resolveFileContractElement(fce types.FileContractElement, valid bool, txid types.TransactionID) {
 	fced := ms.recordFileContractElement(fce.ID)
-	fced.FileContractElement = fce.Copy()
+	if !fced.Created && fced.Revision == nil {
+		// if the contract was already created or revised within this block,
+		// keep the recorded element: it holds the contract as it stood before
+		// the block, which is what a revert must restore
+		fced.FileContractElement = fce.Copy()
+	}
 	fced.Resolved = true
 	fced.Valid = valid
 	ms.spends[fce.ID] = txid
